@@ -32,7 +32,8 @@ FORBIDDEN = re.compile(
 
 TRUSTED_BASE = [
     "Lean 4.33.0 kernel; axioms audited per theorem, allowed: propext, Classical.choice, Quot.sound",
-    "translator harness/gen_lean.py (reflection over the imported bellows modules -> lean/BV/Gen)",
+    "translator harness/gen_lean.py (reflection over the imported bellows modules -> lean/BV/Gen) and harness/pytrans.py "
+    "(syntax trees of selected functions -> lean/BV/Gen/Src*.lean) with its model of the Python run time lean/BV/Py/*.lean",
     "correspondence harness (harness/props/*.py, harness/vloop.py, harness/shim.py) and the line-protocol driver lean/Main.lean",
     "hand-written specs in lean/BV/Spec (written from knowledge of UG101/UG100)",
     "modelled, not verified: CPython asyncio and binascii.crc_hqx, zigpy types/semaphore/base classes, voluptuous",
@@ -134,6 +135,8 @@ class Ctx:
             self.gen_report = json.loads(p.stdout.strip().splitlines()[-1])
         except Exception:
             self.gen_report = {}
+        if self.gen_report.get("src_failed"):
+            self.notes.append({"source_translation_failed": self.gen_report["src_failed"]})
         if self.gen_report.get("notes"):
             self.notes.append({"translator_notes": self.gen_report["notes"]})
         return True
